@@ -42,7 +42,7 @@ def tablesDiag (pid : String) : String :=
         else some s!"package-level-{w.1}-written-in-{w.2.1}-by-{w.2.2.1}-{w.2.2.2.1}.{w.2.2.2.2}") ++
       GGV.Gen.packageVars.filterMap (fun v =>
         if v.2 == "*analysis.Analyzer" || v.2 == "*regexp.Regexp" || v.2 == "*ahocorasick.Matcher" ||
-           v.2 == "map[string][]codes.Code" || v.2 == "map[string][]string" || v.2 == "*config.Config" || v.2 == "sync.Once" || v.2 == "read-only data" then none
+           v.2 == "map[string][]codes.Code" || v.2 == "map[string][]string" || v.2 == "*config.Config" || v.2 == "sync.Once" || v.2 == "read-only data" || v.2 == "read-only list" then none
         else some s!"package-level-variable-{v.1}-of-type-{v.2.replace " " "_"}") ++
       GGV.Gen.sharedReadMethods.filterMap (fun m =>
         if m.2.1 == "" || m.2.2 == "src/indexing" then none
